@@ -4,12 +4,12 @@ package main
 //
 // Dimension: the row-targeting suites (table-diff, key-rows, rowsel) give the chain one conjunctive condition
 // (`k_ IN ?`) on models without schema-level clauses.  Here: plain AND soft-delete models (gorm.DeletedAt under its
-// conventional name, renamed column, embedded gorm.Model, embedded base struct; int / string / composite keys)
+// conventional name, renamed column, zeroValue tag, embedded gorm.Model, embedded base struct; int / string / composite keys)
 //   x chains of Where / Or / Not steps over string, map, struct, clause.* and group (`db.Where(a).Or(b)`) conditions,
 //     a suffix of the chain optionally supplied through Scopes, an inline condition on Delete
 //   x key via Model(&keyed) / via the written or deleted value itself / none / a key no row has / a soft-deleted row's key
 //   x Update, UpdateColumn, Updates / UpdateColumns with map and struct, Update with an expression, Updates(&self), Delete
-//   x Unscoped or not.
+//   x Unscoped or not x plain handle / db.Transaction / Begin…Commit / Session{PrepareStmt} / Session{SkipDefaultTransaction}.
 // Judged on the WHOLE table (8 rows, two of them soft-deleted on soft models) against the reference
 //     target = { rows satisfying (chain formula) AND key AND (not soft-deleted unless Unscoped / plain model) }
 // where the chain formula is the sequence of steps with SQL precedence (AND binds tighter than OR; every step is one
@@ -87,6 +87,13 @@ type c10RSoftEmb struct {
 	Qty  int
 	Name string
 }
+type c10RSoftZero struct {
+	ID        uint `gorm:"primaryKey"`
+	Grp       int
+	Qty       int
+	Name      string
+	DeletedAt gorm.DeletedAt `gorm:"zeroValue:1970-01-01 00:00:01"` // live rows carry this value instead of NULL
+}
 type C10RBase struct {
 	ID        uint `gorm:"primaryKey"`
 	DeletedAt gorm.DeletedAt
@@ -106,6 +113,7 @@ type c10RF struct {
 type c10RModel struct {
 	name  string
 	soft  string // column of the soft-delete flag ("" = plain model)
+	zero  string // zeroValue tag: what the flag column of a LIVE row holds ("" = NULL)
 	updAt bool
 	keys  []string                         // key columns
 	keyOf func(k int) []interface{}        // key of row k (k = 9: a key no row has)
@@ -181,6 +189,13 @@ var c10RModels = []*c10RModel{
 		}
 		return v
 	}},
+	{name: "soft-zero-value", soft: "deleted_at", zero: "1970-01-01 00:00:01", keys: []string{"id"}, keyOf: c10RIntKey, mk: func(k int, f c10RF) interface{} {
+		v := &c10RSoftZero{Grp: f.Grp, Qty: f.Qty, Name: f.Name}
+		if k != 0 {
+			v.ID = uint(c10RIntKey(k)[0].(int))
+		}
+		return v
+	}},
 	{name: "soft-embedded-base", soft: "deleted_at", keys: []string{"id"}, keyOf: c10RIntKey, mk: func(k int, f c10RF) interface{} {
 		v := &c10RSoftBase{Grp: f.Grp, Qty: f.Qty, Name: f.Name}
 		if k != 0 {
@@ -246,6 +261,8 @@ func (m *c10RModel) fill() {
 			case m.soft:
 				if c10RDeleted(k) {
 					v = time.Date(2001, 1, k, 0, 0, 0, 0, time.UTC)
+				} else if m.zero != "" {
+					v = m.zero
 				}
 			default:
 				for j, kc := range m.keys {
@@ -318,6 +335,7 @@ type c10R struct {
 	KeyK      int        `json:"key_k"`            // the row whose key is given (9: no row has it)
 	Fin       string     `json:"fin"`
 	Unscoped  bool       `json:"unscoped,omitempty"`
+	Mode      string     `json:"mode,omitempty"` // "" | tx (inside db.Transaction) | prepare (Session{PrepareStmt}) | skipdeftx | begin (manual Begin/Commit)
 	Val       int        `json:"val"`
 }
 
@@ -447,7 +465,25 @@ func c10RApply(m *c10RModel, tx *gorm.DB, steps []c10RStep) *gorm.DB {
 }
 
 func c10RExec(m *c10RModel, e *c10R) *gorm.DB {
-	tx := m.db.Session(&gorm.Session{})
+	switch e.Mode {
+	case "tx":
+		var res *gorm.DB
+		m.db.Transaction(func(tx *gorm.DB) error { res = c10RExecOn(m, e, tx); return nil })
+		return res
+	case "begin":
+		tx := m.db.Begin()
+		res := c10RExecOn(m, e, tx)
+		tx.Commit()
+		return res
+	case "prepare":
+		return c10RExecOn(m, e, m.db.Session(&gorm.Session{PrepareStmt: true}))
+	case "skipdeftx":
+		return c10RExecOn(m, e, m.db.Session(&gorm.Session{SkipDefaultTransaction: true}))
+	}
+	return c10RExecOn(m, e, m.db.Session(&gorm.Session{}))
+}
+
+func c10RExecOn(m *c10RModel, e *c10R, tx *gorm.DB) *gorm.DB {
 	if e.Unscoped {
 		tx = tx.Unscoped()
 	}
@@ -613,8 +649,8 @@ func c10RJudge(e *c10R, r *Result) (out c10ROut) {
 				if a == nil {
 					return fmt.Sprintf("row %d of a soft-delete model was removed by a scoped Delete", k)
 				}
-				if a[m.soft] == "<nil>" {
-					return fmt.Sprintf("row %d is targeted by the soft delete but %s is still NULL", k, m.soft)
+				if a[m.soft] == b[m.soft] {
+					return fmt.Sprintf("row %d is targeted by the soft delete but %s still holds %q", k, m.soft, a[m.soft])
 				}
 				for c, was := range b {
 					if c != m.soft && c != "updated_at" && a[c] != was {
@@ -726,10 +762,13 @@ var c10RFins = []string{"update1", "updcol1", "upd_expr", "upd_map", "updcols_ma
 
 func genC10R(rng *rand.Rand, r *Result) *c10R {
 	m := c10RModels[rng.Intn(len(c10RModels))]
-	if m.soft == "" && rng.Intn(2) == 0 { // two of eight models are plain: keep them at ~1/8 of the cases
+	if m.soft == "" && rng.Intn(2) == 0 { // the two plain models: keep them at ~1/9 of the cases
 		m = c10RModels[2+rng.Intn(len(c10RModels)-2)]
 	}
 	e := &c10R{Model: m.name, Fin: c10RFins[rng.Intn(len(c10RFins))], Val: 7000 + rng.Intn(100), Unscoped: rng.Intn(8) == 0}
+	if rng.Intn(4) == 0 {
+		e.Mode = []string{"tx", "begin", "prepare", "skipdeftx"}[rng.Intn(4)]
+	}
 	n := 1 + rng.Intn(4)
 	if rng.Intn(12) == 0 {
 		n = 0
@@ -791,6 +830,7 @@ func genC10R(rng *rand.Rand, r *Result) *c10R {
 		r.H("c10.r6.model", m.name)
 		r.H("c10.r6.fin", e.Fin)
 		r.H("c10.r6.key-via", e.KeyVia)
+		r.H("c10.r6.mode", "mode="+e.Mode)
 		ops := []string{}
 		for _, st := range e.steps() {
 			ops = append(ops, st.Op)
